@@ -32,6 +32,10 @@ func (f F) CDF(x float64) float64 {
 	if x < 0 {
 		return 0
 	}
+	if f.D1*x > f.D2 {
+		// D1*x/(D1*x+D2) rounds to 1 in the upper tail: use the complement.
+		return 1 - mathext.RegIncBeta(f.D2/2, f.D1/2, f.D2/(f.D1*x+f.D2))
+	}
 	return mathext.RegIncBeta(f.D1/2, f.D2/2, f.D1*x/(f.D1*x+f.D2))
 }
 
@@ -99,6 +103,11 @@ func (f F) Quantile(p float64) float64 {
 	if p < 0 || p > 1 {
 		panic(badPercentile)
 	}
+	if p > 0.5 {
+		// 1-y cancels in the upper tail: invert the complement instead.
+		yc := mathext.InvRegIncBeta(0.5*f.D2, 0.5*f.D1, 1-p)
+		return f.D2 * (1 - yc) / (f.D1 * yc)
+	}
 	y := mathext.InvRegIncBeta(0.5*f.D1, 0.5*f.D2, p)
 	return f.D2 * y / (f.D1 * (1 - y))
 }
@@ -134,6 +143,9 @@ func (f F) StdDev() float64 {
 
 // Survival returns the survival function (complementary CDF) at x.
 func (f F) Survival(x float64) float64 {
+	if f.D1*x > f.D2 {
+		return mathext.RegIncBeta(f.D2/2, f.D1/2, f.D2/(f.D1*x+f.D2))
+	}
 	return 1 - f.CDF(x)
 }
 
